@@ -13,6 +13,7 @@ A spec is plain data.  From it are derived, independently of each other,
                  "required"(attr), "mixed", "choices": [ChoiceSpec], "wild_ns": str}
     TypeRef   = {"p": prim} | {"c": class id} | {"e": enum id}
 """
+import contextvars
 import dataclasses
 import itertools
 import sys
@@ -116,8 +117,14 @@ def _texty(s, qname_too=False):
     return True
 
 
+HOSTILE = contextvars.ContextVar("hostile_text", default=False)
+_any_text = st.one_of(st.text(max_size=6), st.sampled_from(["\x00", "a\x0bb", "\ufffe", "\x1f", "ok\x08"]))
+
+
 def prim_value(prim, where, cr=False):
     """Strategy of encoded values for primitive `prim` at position `where` (attr|text|elem|token)."""
+    if prim == "str" and HOSTILE.get() and where in ("attr", "elem"):
+        return st.one_of(xml_text(0, 8, cr), _any_text)
     if prim in ("bytes16", "bytes64") and where in ("token", "text"):
         return _enc(st.binary(min_size=1, max_size=6))      # an empty token is no token; empty text is no text
     if prim == "str":
@@ -155,6 +162,7 @@ class Opts:
         self.nillable_empty_str = False   # "" in nillable str elements (DESIGN §5, triage item)
         self.json_safe = False        # keep the dictionary image unambiguous (C04): see json_kinds()
         self.nesting = True           # inner classes / nested enums
+        self.hostile_text = False     # strings over all of Unicode, incl. code points XML 1.0 cannot carry (C03)
         self.mixin_enums = False      # class E(str, Enum) / IntEnum style enumerations (C18 only)
         self.unrepresentable = False  # values XML/JSON cannot tell from "use the default" (C18 only): [] against a
                                       # non-empty default factory, None against a non-None default
@@ -1129,7 +1137,6 @@ def any_element(draw, depth=0, top=None):
                                         "attributes": {"map": [[k, v] for k, v in attrs.items()]}}}
 
 
-import contextvars  # noqa: E402
 UNREPRESENTABLE = contextvars.ContextVar("unrepresentable", default=False)
 
 
@@ -1246,10 +1253,12 @@ def model_and_instance(draw, opts=None):
     o = opts or Opts()
     spec = draw(model_specs(o))
     tok = UNREPRESENTABLE.set(o.unrepresentable)
+    tok2 = HOSTILE.set(o.hostile_text)
     try:
         inst = instance_of(draw, spec, spec["root"], o.cr, None)
     finally:
         UNREPRESENTABLE.reset(tok)
+        HOSTILE.reset(tok2)
     return {"spec": spec, "inst": inst}
 
 
